@@ -354,6 +354,21 @@ func (g *gen) name() enc.Name {
 	for i := 0; i < n; i++ {
 		nm = append(nm, g.comp())
 	}
+	if g.r.Intn(10) == 0 { // mostly empty components: the densest encoding a name can have (2 octets per component)
+		k := 4 + g.r.Intn(6)
+		nm = make(enc.Name, 0, k+2)
+		for i := 0; i < k; i++ {
+			nm = append(nm, enc.Component{Typ: enc.TLNum(compTypes[g.r.Intn(len(compTypes))]), Val: []byte{}})
+			if nm[i].Typ == 2 {
+				nm[i].Typ = 8
+			}
+		}
+		for i := g.r.Intn(3); i > 0; i-- {
+			nm = append(nm, enc.Component{Typ: 8, Val: g.rbytes(1 + g.r.Intn(2))})
+		}
+		g.r.Shuffle(len(nm), func(a, b int) { nm[a], nm[b] = nm[b], nm[a] })
+		return nm
+	}
 	if n > 0 && g.r.Intn(12) == 0 { // a stale digest component in last position: MakeInterest must strip / replace it
 		nm[n-1] = enc.Component{Typ: enc.TypeParametersSha256DigestComponent, Val: g.rbytes(32)}
 	}
@@ -965,6 +980,130 @@ func (t *tracer) nilHint(g *gen, nm enc.Name) {
 	t.line("SAME hint-entries-roundtrip %s %s", got, given)
 }
 
+// One signer object signs several packets; every packet built earlier must stay what it was (its wire may alias nothing
+// the signer reuses) and must still decode and validate after each later signing.
+func (t *tracer) reuseCase(g *gen, round int) {
+	initKeys()
+	sp := spec.Spec{}
+	forInt := round%2 == 1
+	kn := enc.Name{enc.NewStringComponent(8, "k")}
+	key := g.rbytes(1 + g.r.Intn(40))
+	var sk *signerKind
+	switch (round / 2) % 4 {
+	case 0:
+		if forInt {
+			sk = &signerKind{kind: "sha256int", signer: sec.NewSha256IntSigner(fakeTimer{g})}
+		} else {
+			sk = &signerKind{kind: "sha256", signer: sec.NewSha256Signer()}
+		}
+	case 1:
+		if forInt {
+			sk = &signerKind{kind: "hmacint", signer: sec.NewHmacIntSigner(key, fakeTimer{g}), key: key}
+		} else {
+			sk = &signerKind{kind: "hmac", signer: sec.NewHmacSigner(kn, key, false, time.Hour), key: key}
+		}
+	case 2:
+		k := ecKeys[g.r.Intn(len(ecKeys))]
+		sk = &signerKind{kind: "ecc", signer: sec.NewEccSigner(false, forInt, time.Hour, k, kn), ecPub: &k.PublicKey}
+	default:
+		if forInt { // MakeInterest refuses signatures of 253 octets or more: no RSA-2048 Interests
+			k := ecKeys[g.r.Intn(len(ecKeys))]
+			sk = &signerKind{kind: "ecc", signer: sec.NewEccSigner(false, true, time.Hour, k, kn), ecPub: &k.PublicKey}
+		} else {
+			sk = &signerKind{kind: "rsa", signer: sec.NewRsaSigner(false, false, time.Hour, rsaKey, kn), rsaPub: &rsaKey.PublicKey}
+		}
+	}
+	what := "data"
+	if forInt {
+		what = "int"
+	}
+	type kept struct {
+		wire enc.Wire
+		snap []byte
+	}
+	var keep []kept
+	for k := 0; k < 3; k++ {
+		nm := enc.Name{enc.NewStringComponent(8, "reuse"), enc.Component{Typ: 8, Val: g.rbytes(1 + g.r.Intn(6))}}
+		var w enc.Wire
+		func() {
+			defer func() {
+				if r := recover(); r != nil {
+					w = nil
+				}
+			}()
+			if forInt {
+				if res, err := sp.MakeInterest(nm, &ndn.InterestConfig{}, enc.Wire{g.rbytes(1 + g.r.Intn(8))}, sk.signer); err == nil {
+					w = res.Wire
+				}
+			} else {
+				if res, err := sp.MakeData(nm, &ndn.DataConfig{}, enc.Wire{g.rbytes(g.r.Intn(8))}, sk.signer); err == nil {
+					w = res.Wire
+				}
+			}
+		}()
+		if w == nil {
+			t.line("SAME reuse-%s-builds failed ok", sk.kind)
+			return
+		}
+		keep = append(keep, kept{w, join(w)})
+		for j, p := range keep {
+			now := join(p.wire)
+			t.line("SAME reuse-%s-wire-of-packet-%d-unchanged-after-signing-%d %s %s", sk.kind, j, k, hx(now), hx(p.snap))
+			obs, sig, cov, _ := decode(what, enc.NewBufferReader(now))
+			if obs == "err" || obs == "panic" || sig == nil {
+				t.line("SAME reuse-%s-packet-%d-decodes-after-signing-%d %s ok", sk.kind, j, k, obs)
+				continue
+			}
+			if ok, have := sk.validate(cov, sig); have {
+				v := "0"
+				if ok {
+					v = "1"
+				}
+				t.line("VALID %s %s %s %d %s %s", sk.kind, hx(sk.key), hx(join(cov)), int(sig.SigType()), hx(sig.SigValue()), v)
+			}
+		}
+	}
+	t.stats["reuse-"+sk.kind]++
+}
+
+// The name MakeInterest reports (FinalName) is fed back into MakeInterest: with parameters the stale digest is replaced,
+// without parameters it is dropped; the packet decodes to the name MakeInterest reports in both cases.
+func (t *tracer) finalNameReuse(g *gen, final enc.Name) {
+	sp := spec.Spec{}
+	for step, app := range []enc.Wire{nil, {g.rbytes(1 + g.r.Intn(4))}} {
+		nm := make(enc.Name, len(final))
+		copy(nm, final)
+		got, want := "", ""
+		func() {
+			defer func() {
+				if r := recover(); r != nil {
+					got = "panic"
+				}
+			}()
+			res, err := sp.MakeInterest(nm, &ndn.InterestConfig{}, app, nil)
+			if err != nil {
+				got, want = "refused", "built"
+				if app == nil { // a digest-typed component elsewhere in the name is refused when there are no parameters
+					for _, c := range nm[:len(nm)-1] {
+						if c.Typ == enc.TypeParametersSha256DigestComponent {
+							want = "refused"
+						}
+					}
+				}
+				return
+			}
+			want = hx(res.FinalName.Bytes())
+			i, _, err := sp.ReadInterest(enc.NewBufferReader(join(res.Wire)))
+			if err != nil {
+				got = "undecodable:" + hx(join(res.Wire))
+				return
+			}
+			got = hx(i.Name().Bytes())
+		}()
+		t.line("SAME finalname-reuse-step%d-roundtrip %s %s", step, got, want)
+	}
+}
+
 func (t *tracer) intCase(g *gen, id int) {
 	sp := spec.Spec{}
 	nm := g.name()
@@ -1085,6 +1224,9 @@ func (t *tracer) intCase(g *gen, id int) {
 	t.resegment(g, "int", res.Wire, wf)
 	if id%24 == 19 || id%24 == 7 {
 		t.nilHint(g, nm)
+	}
+	if app != nil && id%6 == 3 && len(res.FinalName) > 0 {
+		t.finalNameReuse(g, res.FinalName)
 	}
 	// regions of the encoded Interest: name (signed part), digest component, parameters .. end
 	obs, sig, cov, _ := decode("int", enc.NewBufferReader(b))
@@ -1235,6 +1377,10 @@ func TestTrace(t *testing.T) {
 			tr.dataCase(g, i)
 		} else {
 			tr.intCase(g, i)
+		}
+		if i%30 == 17 {
+			tr.line("# case %d reuse", i)
+			tr.reuseCase(g, i/30)
 		}
 	}
 	for k, v := range tr.stats {
